@@ -20,3 +20,9 @@ package worker
 //@ func (*TaskWorkerPool[T]).worker(twp, ctx, workerId) ()
 //@   entry_assume [worker_context] inWorker
 //@   ghostset workersSpawned := workersSpawned + 1
+
+// C04: a Run racing with Shutdown gets the error "worker pool is closed", never a panic: enqueue turns the send-on-closed
+// panic into that error only when it sees the closed flag, so the flag is set before the job channel is closed.
+//@ func (*TaskWorkerPool[T]).Shutdown$1() ()
+//@   modifies lastAtomicBoolStore
+//@   before_call close#1 [closed_flag_is_set_before_the_channel_is_closed] lastAtomicBoolStore
